@@ -9,6 +9,7 @@ something else could run, injected faults) is within a bound.
 """
 import collections
 import queue as _queue
+import sys
 import threading as _threading
 
 
@@ -29,9 +30,10 @@ class _T:
 
 
 class Scheduler:
-    def __init__(self, prefix=(), horizon=4000):
+    def __init__(self, prefix=(), horizon=4000, trace_filter=None):
         self.prefix = list(prefix)
         self.horizon = horizon
+        self.tracer = self._make_tracer(trace_filter) if trace_filter is not None else None
         self.trace = []  # per choice point: dict(n=#options, chosen=idx, costs=[...], descr=[...])
         self.threads = []
         self.by_ident = {}
@@ -43,6 +45,21 @@ class Scheduler:
         self.threads.append(main)
         self.by_ident[_threading.get_ident()] = main
         self.current = main
+
+    def _make_tracer(self, trace_filter):
+        """Line-granular scheduling points: in every frame whose code object passes `trace_filter`, each source line
+        is a scheduling point of the executing logical thread (sys.settrace 'line' events)."""
+        S = self
+
+        def local(frame, event, arg):
+            if event == 'line':
+                S.point('line:%s:%d' % (frame.f_code.co_name, frame.f_lineno))
+            return local
+
+        def glob(frame, event, arg):
+            return local if trace_filter(frame.f_code) else None
+
+        return glob
 
     # ------------------------------------------------------------------ choice bookkeeping
     def _choose(self, descr, costs):
@@ -147,12 +164,15 @@ class Scheduler:
                     raise Abort()
                 t.pending = None
                 self.log.append((t.tid, 'begin', 'go'))
+                if self.tracer is not None:
+                    sys.settrace(self.tracer)
                 target()
             except Abort:
                 pass
             except BaseException as e:  # noqa: BLE001  (thread dies; like threading's excepthook)
                 t.exc = e
             finally:
+                sys.settrace(None)
                 if not self.aborted:
                     # a thread stays 'alive' for a while after its last synchronisation operation
                     try:
@@ -360,14 +380,19 @@ class Execution:
         return [p['chosen'] for p in self.trace]
 
 
-def run_once(body, prefix=(), horizon=4000):
+def run_once(body, prefix=(), horizon=4000, trace_filter=None):
     """Run `body()` (the main logical thread) under a fresh scheduler replaying `prefix`, then defaults."""
-    S = Scheduler(prefix, horizon)
+    S = Scheduler(prefix, horizon, trace_filter)
     _S[0] = S
     result = None
     try:
         try:
-            result = body(S)
+            if S.tracer is not None:
+                sys.settrace(S.tracer)
+            try:
+                result = body(S)
+            finally:
+                sys.settrace(None)
             S.drain()
         except Abort:
             pass
@@ -377,7 +402,7 @@ def run_once(body, prefix=(), horizon=4000):
     return Execution(S.trace, S.log, S.aborted if S.aborted != 'shutdown' else None, result, leaked, S.npoints)
 
 
-def explore(body, bound, check, max_exec=None, horizon=4000):
+def explore(body, bound, check, max_exec=None, horizon=4000, trace_filter=None):
     """Enumerate all executions of `body` with at most `bound` deviations; call check(execution) on each.
 
     Returns dict(executions=..., capped=bool, max_points=...)."""
@@ -388,7 +413,7 @@ def explore(body, bound, check, max_exec=None, horizon=4000):
         if max_exec is not None and stats['executions'] >= max_exec:
             stats['capped'] = True
             break
-        x = run_once(body, prefix, horizon)
+        x = run_once(body, prefix, horizon, trace_filter)
         stats['executions'] += 1
         stats['max_points'] = max(stats['max_points'], x.npoints)
         stats['choice_points'] += len(x.trace)
